@@ -281,8 +281,14 @@ def _r1(ctx):
     mem2 = [s for s in loop.body if isinstance(s, ast.If) and any(isinstance(x, ast.Continue) for x in s.body)]
     ok = len(tail) == 1 and len(mem2) == 1 and loop.body.index(mem2[0]) < loop.body.index(tail[0]) and \
         not any(isinstance(c.func, ast.Attribute) and "proceed_on" in c.func.attr for c in calls_in(mem2[0]))
+    any_tail = [c for c in calls_in(loop) if isinstance(c.func, ast.Attribute) and c.func.attr == "_proceed_on_primary_branch"]
+    mem2_moves = [c for s_ in mem2 for c in calls_in(s_) if isinstance(c.func, ast.Attribute) and "proceed_on" in c.func.attr]
     if ok:
         ctx.holds(ps, tail[0], "after a closed hysteresis: Memory 2 keeps closing without a new point, Memory 1 continues on the primary branch")
+    elif any_tail and not mem2_moves:
+        # the continuation is there, but written in another control-flow shape (early returns instead of break / continue):
+        # no culprit, so no verdict
+        raise AnalysisError("_hcm_process_sample: Memory 1 / Memory 2 continuation written in a shape the rule does not model")
     else:
         ctx.violated(ps, loop, "after a closed hysteresis the Memory 1 / Memory 2 continuation is not (primary branch / no new point)",
                      text="memory 1/2")
